@@ -68,6 +68,7 @@ def run(run, ix, tier):
     for r, fl in (('O-R1', 4), ('O-R2', 3), ('O-R3', 3), ('O-R4', 1), ('O-R5', 2), ('O-R6', 2), ('O-R8', 1), ('O-R9', 1)):
         run.rule(r, floor=fl)
     check_tolerance_bits(run, ix)
+    check_radius_estimate(run, ix)
     m = ix.module(ODES)
     od = ix.func(ODES, 'odefun')
     interp = ix.func(ODES, 'odefun.interpolant')
@@ -502,3 +503,63 @@ def check_tolerance_bits(run, ix):
                                      line=x.lineno))
     if n == 0:
         raise AnalysisError('odefun: conversion of the tolerance to bits not found')
+
+
+# --------------------------------------------------------------------------- O-R10 / O-R11
+def check_radius_estimate(run, ix):
+    """O-R10 / O-R11 (the error bound).  ode_taylor accepts a step when tol / |c_k| ** (1/k) allows it for the trailing
+    coefficients c_k it looks at.  O-R10: looking at orders n and n-1 only says nothing about a series whose
+    coefficients vanish at both (a series in powers of x**m, a polynomial solution of degree > n): the maximal step is
+    accepted and the first omitted term is the error.  O-R11: the coefficients are compared with the ABSOLUTE tolerance
+    only, so while |y| is far below tol every step is maximal, and the truncation error made there is amplified with the
+    solution (y' = 20 y, y(0) = 1e-30).  Both are genuine on the pinned tree (inputs in known_findings.json) and need a
+    redesign of the step control rather than a patch."""
+    run.rule('O-R10', floor=1, desc='the step radius is estimated from enough trailing coefficients')
+    run.rule('O-R11', floor=1, desc='the step test scales with the size of the solution')
+    tay = ix.func(ODES, 'ode_taylor')
+    est = [x for x in _walk_own(tay.node) if isinstance(x, ast.Call) and norm(x.func).endswith('nthroot')
+           and 'tol' in norm(x)]
+    if not est:
+        raise AnalysisError('ode_taylor: radius estimate not found')
+    e = est[0]
+    loop = e
+    while loop is not None and not isinstance(loop, ast.For):
+        loop = getattr(loop, '_parent', None)
+    window = None
+    if isinstance(loop, ast.For) and isinstance(loop.iter, (ast.Tuple, ast.List)):
+        window = len(loop.iter.elts)
+    # an a-posteriori test of the differential equation at the end of the step makes a short window sufficient: a loop
+    # that evaluates the right-hand side at x0 + radius, compares the residual of the Taylor polynomial with the
+    # tolerance and shortens the radius otherwise
+    residual_test = None
+    for lp in _walk_own(tay.node):
+        if isinstance(lp, (ast.For, ast.While)) and lp is not loop:
+            calls_f = any(isinstance(c, ast.Call) and norm(c.func) == tay.params[1] and c.args and 'radius' in norm(c.args[0])
+                          for c in ast.walk(lp))
+            shrinks = any(isinstance(a, ast.AugAssign) and norm(a.target) == 'radius' and isinstance(a.op, ast.Div)
+                          for a in ast.walk(lp))
+            exits = any(isinstance(i_, ast.If) and 'tol' in norm(i_.test) and any(isinstance(b_, ast.Break) for b_ in i_.body)
+                        for i_ in ast.walk(lp))
+            if calls_f and shrinks and exits and lp.lineno > e.lineno:
+                residual_test = lp
+    if residual_test is not None:
+        run.ok('O-R10', 'the step is checked against the differential equation at its far end (line %d) and halved until '
+               'the Taylor polynomial satisfies it' % residual_test.lineno)
+    elif window is not None and window < 3:
+        run.fail(Finding('O-R10', ODES, 'ode_taylor', 'for %s in %s' % (norm(loop.target), norm(loop.iter)),
+                         'the radius is estimated from the coefficients of order %s only: when both vanish although later '
+                         'ones do not (y\' = -9 x**8 y**2 from x0 = 0: a series in x**9; y\' = 30 x**29: a polynomial of '
+                         'degree 30 > n) the step 0.5 is accepted and the first omitted term is the error (6.5e4 times the '
+                         'tolerance at x = 0.5)' % norm(loop.iter), line=loop.lineno))
+    else:
+        run.ok('O-R10', 'radius estimated from %s' % (norm(loop.iter) if isinstance(loop, ast.For) else 'a computed window'))
+    quotient = [q for q in ast.walk(e) if isinstance(q, ast.BinOp) and isinstance(q.op, ast.Div) and norm(q.left) == 'tol']
+    scaled = any('ts[0]' in norm(x) or 'max(' in norm(x) for x in ast.walk(e.args[0])) if e.args else False
+    if quotient and not scaled:
+        run.fail(Finding('O-R11', ODES, 'ode_taylor', norm(quotient[0]),
+                         'the trailing coefficient is compared with the absolute tolerance whatever the size of the '
+                         'solution: while |y| << tol every coefficient is below tol and the maximal step is taken; for '
+                         'y\' = 20 y, y(0) = 1e-30 the degree-n polynomial is used at a*h = 10 and y(4) = 55404.9 instead of '
+                         '55406.2 (relative error 2e-5)', line=quotient[0].lineno))
+    else:
+        run.ok('O-R11', 'the step test is scaled by the size of the solution')
